@@ -685,11 +685,45 @@ def _pdr_map(sess):
 
 def mon_c12(case, obs, prefix):
     bad = []
+    have = {}      # UP SEID -> URR ids created and not removed, tracked from the requests alone
     for i, ev, o, prev, prev_dp, dup in walk(case, obs, prefix):
         if o.get("fault"):
             bad.append((i, "fault: " + o["fault"]))
             break
         d = o["dump"]
+        have_before = {l: set(v) for l, v in have.items()}
+        # --- independent URR life-cycle: a URR the SMF created and has not removed must stay known to the session
+        if ev["t"] == "recv" and not dup and ev["msg"]["k"] in ("est", "mod"):
+            fl = {(f["op"], f["kind"], f["id"]) for f in ev.get("fail", [])}
+            ops_ = ev["msg"].get("ops") or {}
+            lids = []
+            if ev["msg"]["k"] == "est":
+                lids = [sl["lid"] for sl in (d["slots"] or []) if sl is not None and live(prev, sl["lid"]) is None]
+                for l in lids:
+                    have[l] = set()
+            elif live(prev, ev["msg"]["seid"]) is not None and live(d, ev["msg"]["seid"]) is not None:
+                lids = [ev["msg"]["seid"]]
+            for l in lids:
+                cur = have.setdefault(l, set())
+                for u in ops_.get("cURR", []) or []:
+                    if u.get("id") is not None and ("create", "urr", u["id"]) not in fl:
+                        cur.add(u["id"])
+                    elif u.get("id") is not None:
+                        cur.discard(u["id"])          # failed create: state of that id not asserted
+                for u in ops_.get("rURR", []) or []:
+                    cur.discard(u)
+        for l in list(have):
+            sl = live(d, l)
+            if sl is None or (live(prev, l) is not None and live(prev, l)["rid"] != sl["rid"] and ev["t"] == "recv" and ev["msg"]["k"] == "est"):
+                if sl is None:
+                    del have[l]
+                continue
+            known = _sess_urrs(sl)
+            for u in sorted(have[l]):
+                if u not in known or known[u].get("removed"):
+                    bad.append((i, "URR %d of session %d, created by the SMF and never removed, is no longer known to the session: "
+                                   "its removal or the session's deletion cannot return its final usage" % (u, l)))
+                    have[l].discard(u)
         for idx, s in enumerate(d["slots"] or []):
             if s is None:
                 continue
@@ -773,6 +807,18 @@ def mon_c12(case, obs, prefix):
             for ie in ies:
                 if not ie["trig"] & TERMR:
                     bad.append((i, "report for removed URR %d is not marked as termination report" % ie["urr"]))
+            # lower bound from the independent life-cycle: a removed URR's own final report must be in the response
+            # (only when every scripted report carries the id of the URR it was returned for)
+            if all(r["urr"] == u_["id"] for u_ in ev.get("usage", []) for r in u_["rpts"]):
+                got = {(ie["urr"], ie["trig"]) for ie in ies}
+                done = set()
+                for u in ops["rURR"]:
+                    if u is None or u in done or u not in have_before.get(m["seid"], set()) or (KIDX["urr"], u) not in {(r[1], r[2]) for r in prev_dp if r[0] == m["seid"]}:
+                        continue
+                    done.add(u)
+                    rs = usage.get(("remove", u), [])
+                    if rs and (u, (rs[0]["trig"] | TERMR) % (1 << 24)) not in got:
+                        bad.append((i, "Remove URR %d: the data plane returned its final usage, the response does not carry it as a termination report" % u))
         if touched == ["qURR"]:
             for ie in ies:
                 if not ie["trig"] & IMMER:
@@ -783,7 +829,7 @@ def mon_c12(case, obs, prefix):
 def sig_c12(case, failures, trace=None, prefix=""):
     """create-pdr-existing-id: before the first failure, a Create PDR IE named a PDR id which the addressed session held
     at that moment (judged on the implementation's own state dumps), or one request named an id twice"""
-    if not failures or trace is None or not any("referring PDRs" in m or "final usage" in m for _, m in failures):
+    if not failures or trace is None or not ("referring PDRs" in failures[0][1] or failures[0][1].startswith("final usage of dissociated")):
         return None
     upto = failures[0][0]
     for i, ev, o, prev, prev_dp, dup in walk(case, trace, prefix):
